@@ -215,7 +215,13 @@ def rules_macro(run):
         if prop in ('entered_states', 'exited_states', 'sent_events'):
             rets = [n for n in q.walk(M, False) if isinstance(n, ast.Return)]
             good = len(rets) == 1 and isinstance(rets[0].value, ast.Name)
-            if good:
+            comp = strip_cast(rets[0].value) if len(rets) == 1 else None
+            if isinstance(comp, ast.ListComp):
+                # [x for step in self._steps for x in step.P]  (no filter, element is the inner variable)
+                gens = comp.generators
+                good = len(gens) == 2 and not gens[0].ifs and not gens[1].ifs and isinstance(gens[1].target, ast.Name) and \
+                    q.unparse(comp.elt) == gens[1].target.id and q.unparse(gens[1].iter) == '%s.%s' % (tv, prop) and gens[0] is outer[0]
+            elif good:
                 acc = rets[0].value.id
                 ups = [n for n in q.walk(M) if (isinstance(n, ast.AugAssign) and isinstance(n.target, ast.Name) and n.target.id == acc)
                        or (isinstance(n, ast.Call) and isinstance(n.func, ast.Attribute) and n.func.attr in ('append', 'extend')
